@@ -477,7 +477,8 @@ class Contract:
                     import builtins
 
                     raise getattr(builtins, exc)(f"by contract of {self.qualname}")
-            olds = {}
+            # parameters that the callee does not modify: old_<p> is the (unchanged) current value
+            olds = {"old_" + name: v for name, v in env.vars.items() if name not in self.modifies}
             for name in self.modifies:
                 cur = env.lookup(name)
                 olds["old_" + name] = _snapshot(cur)
